@@ -187,3 +187,55 @@ fn dispatch_case(app: bool) {
 fn dispatch_app() { dispatch_case(true) }
 fn dispatch_hs() { dispatch_case(false) }
 ooo!(c05_dispatch_application: dispatch_app, 5; c05_dispatch_handshake: dispatch_hs, 5);
+
+/// Two forward jumps with a gap each (messages gen+1 and gen+3 overtake gen and gen+2): the two parked keys are
+/// exactly {gen, gen+2}; ANY later request q <= gen+3 succeeds iff q is one of them, once.
+fn two_jumps_then_any() {
+    let uf = Uf::fresh();
+    let secret = any_bytes::<NH>();
+    let gen: u32 = kani::any();
+    kani::assume(gen <= u32::MAX - 2000);
+    let mut r = ratchet_new(vec_of(secret), gen);
+    match ratchet_get_message_key(&mut r, &uf, gen + 1) {
+        Ok(k) => { let (_, _, kg) = message_key_parts(&k); assert!(kg == gen + 1); forget(k); }
+        Err(e) => { forget(e); assert!(false, "first overtaking message refused"); }
+    }
+    match ratchet_get_message_key(&mut r, &uf, gen + 3) {
+        Ok(k) => { let (_, _, kg) = message_key_parts(&k); assert!(kg == gen + 3); forget(k); }
+        Err(e) => { forget(e); assert!(false, "second overtaking message refused"); }
+    }
+    assert!(ratchet_generation(&r) == gen + 4 && ratchet_history_len(&r) == 2);
+    let q: u32 = kani::any();
+    kani::assume(q <= gen + 3);
+    match ratchet_get_message_key(&mut r, &uf, q) {
+        Ok(k) => {
+            assert!(q == gen || q == gen + 2, "a generation that was delivered before, or never existed, got a key");
+            let (_, _, kg) = message_key_parts(&k);
+            assert!(kg == q);
+            assert!(ratchet_history_len(&r) == 1 && ratchet_generation(&r) == gen + 4);
+            forget(k);
+            match ratchet_get_message_key(&mut r, &uf, q) {
+                Ok(k2) => { forget(k2); assert!(false, "replay of a late message accepted"); }
+                Err(e) => { assert!(matches!(e, MlsError::KeyMissing(x) if x == q)); forget(e); }
+            }
+            // the other parked key is still there, once
+            let o = if q == gen { gen + 2 } else { gen };
+            match ratchet_get_message_key(&mut r, &uf, o) {
+                Ok(k3) => { let (_, _, kg) = message_key_parts(&k3); assert!(kg == o); forget(k3); }
+                Err(e) => { forget(e); assert!(false, "the other late message was refused"); }
+            }
+            assert!(ratchet_history_len(&r) == 0);
+            kani::cover!(q == gen + 2, "younger parked key first");
+        }
+        Err(e) => {
+            assert!(q != gen && q != gen + 2, "a parked key was refused");
+            assert!(matches!(e, MlsError::KeyMissing(x) if x == q));
+            assert!(ratchet_history_len(&r) == 2 && ratchet_generation(&r) == gen + 4, "a refused request changed the ratchet");
+            forget(e);
+            kani::cover!(q == gen + 1, "replay of the first overtaking message");
+        }
+    }
+    forget(r);
+    kani::cover!(true);
+}
+ooo!(c05_ooo_two_jumps_then_any: two_jumps_then_any, 6);
